@@ -39,7 +39,8 @@ const char* const kProbeNames[PR_N] = {
     "preemption_at_visible_operation", "duplicate_add_rejected", "readfile_ok_multi_crystal", "copy_mutated_before_release",
     "readfile_ok_under_short_reads", "nested_formula_parsed", "cp_nist_fallback_taken", "error_propagated",
     "shared_crystal_used_by_2_tasks", "readfile_hit_eio", "readfile_truncated_rejected", "array_zero_capacity_used",
-    "formula_parsed_under_callers_thread_locale", "formula_rejected_under_callers_thread_locale", "readfile_under_callers_thread_locale"};
+    "formula_parsed_under_callers_thread_locale", "formula_rejected_under_callers_thread_locale", "readfile_under_callers_thread_locale",
+    "file_layout_variant_accepted", "file_layout_variant_rejected"};
 
 Shared* SH = nullptr;
 uint8_t* g_cov = nullptr;
